@@ -435,11 +435,14 @@ pub trait ExtractBit: Index<usize, Output = u8> {
 impl<const N: usize> ExtractBit for [u8; N] {}
 
 fn decode_scalar<S: PrimeField>(bytes: &[u8]) -> Option<S> {
-    if bytes.len() != size_of::<S::Repr>() {
+    let size = size_of::<S::Repr>();
+    if bytes.len() > size {
         return None;
     }
+    // The integer encoding of a decrypted plaintext has no leading zero
+    // bytes; restore the fixed width of the scalar representation.
     let mut encoding = <S as PrimeField>::Repr::default();
-    encoding.as_mut().copy_from_slice(bytes);
+    encoding.as_mut()[size - bytes.len()..].copy_from_slice(bytes);
     S::from_repr(encoding).into()
 }
 
